@@ -394,6 +394,7 @@ V("C01", "ncrst-cell-lengths-float", "mdtraj/formats/amberrst.py", 'v = ncfile.c
 V("C01", "ncrst-angles-in-radian-label", "mdtraj/formats/amberrst.py", 'v.units = "degree"', 'v.units = "radian"', "C01-R3", "AmberNetCDFRestartFile._initialize_headers")
 V("C01", "nc-label-dimension-4", "mdtraj/formats/netcdf.py", 'self._handle.createDimension("label", 5)', 'self._handle.createDimension("label", 4)', "C01-R3", "NetCDFTrajectoryFile._initialize_headers")
 V("C01", "twin-ncrst-type-by-dtype-name", "mdtraj/formats/amberrst.py", 'v = ncfile.createVariable("time", "d", ("time",))', 'v = ncfile.createVariable("time", "f8", ("time",))', None)
+V("C01", "twin-ncrst-type-as-numpy-dtype", "mdtraj/formats/amberrst.py", 'v = ncfile.createVariable("time", "d", ("time",))', 'v = ncfile.createVariable("time", np.float64, ("time",))', None)
 V("C01", "twin-nc-setattr-as-attribute", "mdtraj/formats/netcdf.py", 'setattr(frame_times, "units", "picosecond")', 'frame_times.units = "picosecond"', None)
 V("C01", "nc-tagged-time-to-nanoseconds", "mdtraj/formats/netcdf.py", 'time = in_units_of(time, None, "picoseconds")', 'time = in_units_of(time, None, "nanoseconds")', "C01-R2", "NetCDFTrajectoryFile.write")
 V("C01", "h5-tagged-velocities-angstrom", "mdtraj/formats/hdf5.py", 'velocities = in_units_of(velocities, None, "nanometers/picosecond")', 'velocities = in_units_of(velocities, None, "angstroms/picosecond")', "C01-R2", "HDF5TrajectoryFile.write")
